@@ -11,11 +11,10 @@ func prop(p *Property) { properties[p.ID] = p }
 var notApplicable = []naEntry{
 	{"C05", "Correctness of Next/Advance is a relation between runtime cursor values (two roaring cursors and two compressed-stream positions) over arbitrary call histories; no structural clause short of symbolic execution decides it, so static analysis gives no verdict (the wire-arity and length-prefix rules of C01/C04 protect the stream format it relies on but are not a verdict on navigation)."},
 	{"C17", "A metamorphic relation between the outputs of different merge trees: purely a value property over runtime data; its structural ingredients are already those checked under C02/C03/C08, and no static rule in reach decides the equality itself."},
-	{"C01", "check under construction"}, {"C02", "check under construction"}, {"C03", "check under construction"},
+	{"C01", "check under construction"}, {"C02", "check under construction"},
 	{"C04", "check under construction"}, {"C07", "check under construction"},
 	{"C10", "check under construction"},
-	{"C11", "check under construction"}, {"C13", "check under construction"}, {"C14", "check under construction"},
-	{"C16", "check under construction"},
+	{"C13", "check under construction"}, {"C14", "check under construction"},
 }
 
 func init() {
@@ -98,5 +97,29 @@ func init() {
 		Explanation: "CRC-SEED checks both persistFooter call sites: a dominating assignment footer.crc = Sum32() of a countHashWriter created in the same function, through which every data-writing call on that destination passes (no bypass), and a footer writer on the same destination that does not bypass a buffer holding data. CRC-LAST checks persistFooter itself (hashing writer seeded from footer.crc before the first write, all 7 writes through it, CRC written last from the running value, no write into the footer argument). CRC-UPDATE pins countHashWriter.Write/Count/Sum32. LEN-RETURN pins the three returned byte counts. FOOTER-FAITHFUL shows a footer obtained from parseFooter is never written afterwards and that parseFooter sets every footer field. SEG-IMMUT (shared with C15) shows persisting never stores into the segment or its footer.",
 		NotCovered:  "Data.WriteTo semantics (trusted); equality of re-persisted bytes beyond CRC/footer faithfulness (needs C04 WIRE-AGREE)",
 		Uses:        []RuleUse{{"CRC-SEED", ""}, {"CRC-LAST", ""}, {"CRC-UPDATE", ""}, {"LEN-RETURN", ""}, {"FOOTER-FAITHFUL", ""}, {"SEG-IMMUT", ""}},
+	})
+}
+
+func init() {
+	prop(&Property{
+		ID:          "C16",
+		Title:       "Collection statistics describe the documents actually in the segment",
+		Technique:   "static analysis: provenance of the statistics maps (lane identification) + unit classification of every accumulated increment + SSA structural checks of record order, decode order, accessors and Merge",
+		Level:       "Static rules deciding named necessary conditions: which quantity is accumulated into which statistic (units), that the two lanes never cross anywhere between builder/merger, file record, loader, Segment fields and CollectionStats, and that Merge adds component-wise unconditionally. Partial: that the sums are numerically right for a given input is a value property.",
+		Explanation: "STAT-UNITS identifies the maps of the two lanes from the arguments of persistFields and the stores to Segment.fieldDocs/fieldFreqs (provenance of map creation sites), then classifies the increment of every MapUpdate on them: the frequency lane must add Field.Length()/Posting.Frequency(), the document lane 1 per element of a per-document set or the tracker's cardinality. STAT-LANES checks the record order in persistFields, the decode order in loadFields, initSegmentBase's parameter-to-field mapping, the three CollectionStats fields and accessors, unconditional component-wise Merge, and that the merger clears the per-field document tracker before use on every path.",
+		NotCovered:  "numeric correctness of the sums for particular inputs/deletions (value property)",
+		Uses:        []RuleUse{{"STAT-UNITS", ""}, {"STAT-LANES", ""}},
+	})
+}
+
+func init() {
+	prop(&Property{
+		ID:          "C03",
+		Title:       "Merge reports a correct old-to-new document number mapping",
+		Technique:   "static analysis: SSA path enumeration over one iteration of the remap loops (exactly-once store, sentinel on the drops edge, counter +1), phi-aware definedness of the returned map, def-use checks of publication and counting",
+		Level:       "Static rules deciding the shape of the map for every input: one table per input segment of that segment's length, filled exactly once per document with the sentinel or a consecutive counter threaded across segments, defined on every success path (incl. zero survivors), published by the Merger, survivor count from the bitmaps. Partial: that content is found at the reported number is a value property (its structural part is REMAP under C02).",
+		Explanation: "DOCNUMS-DEFINED: phi-aware check that no nil-error return of mergeToWriter carries a nil map. DOCNUMS-SHAPE: enumerates every acyclic path through one iteration of the per-document loop (mergeStoredAndRemapSegment) and of the per-segment loop (mergeStoredAndRemap): exactly one store table[docNum] per path, the sentinel exactly on the drops.Contains edge with the counter unchanged, otherwise the counter which advances by exactly one; each segment iteration fills then appends exactly one make([]uint64, seg.footer.numDocs); counter threaded from 0 through the fill loop / callee result; zero-survivor branch builds all-dropped tables. DOCNUMS-PUBLISHED: Merger.WriteTo stores merge's result into the field DocumentNumbers returns; Merge/merge pass every segment and the caller's drops unchanged; docDropped folds to MaxInt64; footer.numDocs = computeNewDocCount. STORED-OFFSET-SOURCE: every stored-offset index entry is coder.Size() taken right before coder.Add of the same document.",
+		NotCovered:  "that the content of a surviving document is found at its reported number (value property); bitmaps that violate the input contract",
+		Uses:        []RuleUse{{"DOCNUMS-DEFINED", ""}, {"DOCNUMS-SHAPE", ""}, {"DOCNUMS-PUBLISHED", ""}, {"STORED-OFFSET-SOURCE", ""}},
 	})
 }
